@@ -4,6 +4,7 @@ import XmppModel.Model.CorrAttrs
 import XmppModel.Model.CorrWrap
 import XmppModel.Model.CorrExpect
 import XmppModel.Model.CorrIbb
+import XmppModel.Model.CorrKey
 import XmppModel.Driver.C15
 import XmppModel.Driver.C18
 /-! Driver module for C06: replays an observed trace of a forced schedule on the LTS of
@@ -21,6 +22,7 @@ enabled in the model (trace inclusion), `bad@n:tok` otherwise.
         namespace) | n (declaration xmlns:NAME), NAME i (id) | t (type), value (digit | r e g t),
         place b (in front of the stanza's own attributes) | a (behind them)
       g serve loop enters the hand-off select   h serve loop starts waiting for the close
+      A<k> the serve loop gave up the hand-off of stanza k (waiter gone) and the handler got it
       C the application closes the output stream (later transmissions fail before they write)
       f<i> right after c<i> on a broken / closed output: the call failed at once
     C06 rcpt <ids> <trace>      ids `,`-joined, tokens: c o f x s as above, T<i> returned nil,
@@ -148,10 +150,17 @@ def applyTok (cfg : Cfg) (s : St) (tok : String) : Option St :=
     let after ← parseDecoys 'a' decoy
     let (i?, t?) := CorrAttrs.getIDTyp (before ++ own ++ after)
     let id ← i?
-    step cfg (settle cfg s) (.read ⟨kind, id, CorrAttrs.isResponse t?, ns, bad⟩)
+    step cfg s (.read ⟨kind, id, CorrAttrs.isResponse t?, ns, bad⟩)
   | 'H' :: r => do
     let k ← numOf r
     if s.hlog.head? = some k then some s else none
+  | 'A' :: r => do
+    -- the serve loop gave up the hand-off of stanza k (the waiter's context is done) and the
+    -- handler got the stanza
+    let k ← numOf r
+    match s.spc with
+    | .offering _ k' => if k = k' then step cfg s .abandon else none
+    | _ => none
   | ['C'] => step cfg s .closeOut
   | ['g'] => match s.spc with
     | .offering .. => some s
@@ -214,7 +223,17 @@ def autoEvents (cfg : Cfg) (n : Nat) (g : GState) : Nat → GState
     let pick := cand.find? fun i =>
       (match s.spc with | .offering j _ => j == i && g.entered | _ => false) || s.cancelled i
     match pick with
-    | none => g
+    | none =>
+      -- nobody can take the response, the waiter's context is done, the serve loop is in its
+      -- select: it gives up and the handler gets the stanza
+      match s.spc with
+      | .offering j k =>
+        if g.entered && ctxDone cfg s j && !(g.insel.contains j && s.rpc j == .waiting) then
+          match step cfg s .abandon with
+          | some s' => autoEvents cfg n { g with st := s', entered := false, trace := s!"A{k}" :: g.trace } fuel
+          | none => g
+        else g
+      | _ => g
     | some i =>
       let canRecv := match s.spc with | .offering j _ => j == i && g.entered | _ => false
       let canTime := s.cancelled i
@@ -266,7 +285,6 @@ def enabled (cfg : Cfg) (reqs : List (Kind × Nat × Ns)) (g : GState) : List St
     (match s.rpc i with | .done (.reply _) false => [s!"k{i}", s!"d{i}"] | .done (.reply _) true => (if g.drained.contains i then [] else [s!"k{i}"]) | _ => [])
   let serveFree := match s.spc with
     | .idle => !g.handed
-    | .offering j _ => g.entered && ctxDone cfg s j
     | _ => false
   let peers := if serveFree then
       (peerAlphabet reqs).filter fun t =>
@@ -304,7 +322,7 @@ def applyAction (cfg : Cfg) (n : Nat) (g : GState) (tok : String) : Option GStat
         else g1
       | none => g1
     | _ => g1
-  pure (autoEvents cfg n g2 (2 * n + 2))
+  pure (autoEvents cfg n g2 (2 * n + 3))
 
 def lcg (x : Nat) : Nat := (x * 6364136223846793005 + 1442695040888963407) % 18446744073709551616
 
@@ -383,7 +401,7 @@ def summaryR (n : Nat) (s : RSt) : String :=
 def parseWrap (api shape : String) : Option (CorrWrap.Api × CorrWrap.Shape) := do
   let a ← match api with
     | "U" => some CorrWrap.Api.unmarshal | "N" => some .unmarshalNil | "V" => some .unmarshalElement
-    | "I" => some .iter | "J" => some .iterElement | _ => none
+    | "I" => some .iter | "J" => some .iterElement | "O" => some .ibbOpen | "P" => some .ibbOpenMsg | _ => none
   let addr (c : Char) : Option CorrWrap.Addr :=
     if c = '-' then some .absent else if c = 'v' then some .valid else if c = 'x' then some .invalid else none
   match shape.toList with
@@ -481,8 +499,52 @@ def ibbGen (s : CorrIbb.St) : Nat → List String → List String → List Strin
     ibbAlphabet.foldl (fun acc o =>
       if CorrIbb.effective s o then ibbGen (CorrIbb.step {} s o).1 d (showIbbOp o :: pre) acc else acc) acc
 
+/-! `C06 key <kind><api><role> <attrs> <to> <from> <typ>`: one round trip of a blocking request whose
+start element enters SendIQ / SendMessage / SendPresence with the attribute list `attrs` (items
+`<u|q|n><i|t|o><digit>`: unqualified / foreign namespace / xmlns declaration, local name id / type /
+other, value 0 = empty); the peer answers with the id it read on the wire, `from` spelled as
+given.  Answer: the id-named attributes on the wire (`R` = a generated id), the outcome, whether
+the handler saw the reply. -/
+def parseKeyAttr (t : String) : Option CorrAttrs.Attr :=
+  match t.toList with
+  | [sp, l, v] => do
+    let sp ← if sp = 'u' then some CorrAttrs.Space.none else if sp = 'q' then some CorrAttrs.Space.foreign
+             else if sp = 'n' then some CorrAttrs.Space.xmlns else none
+    let l ← if l = 'i' then some CorrAttrs.Loc.id else if l = 't' then some CorrAttrs.Loc.type
+            else if l = 'o' then some CorrAttrs.Loc.other else none
+    let v ← (String.ofList [v]).toNat?
+    pure ⟨sp, l, v⟩
+  | _ => none
+
+def parseKeyTo (t : String) : Option CorrKey.To :=
+  if t = "-" then some .absent else if t = "d" then some .domain else if t = "f" then some .full
+  else if t = "i" then some .idn else none
+
+def parseKeyFrom (t : String) : Option CorrKey.From :=
+  if t = "-" then some .absent else if t = "s" then some .same else if t = "u" then some .equiv
+  else if t = "x" then some .ace else if t = "d" then some .other else if t = "b" then some .ownBare
+  else if t = "g" then some .garbage else none
+
+def showKeyAttr (a : CorrAttrs.Attr) : String :=
+  let sp := match a.space with | .none => "u" | .foreign => "q" | .xmlns => "n"
+  sp ++ (if a.val ≥ 7 then "R" else toString a.val)
+
 def handle (args : List String) : Option String :=
   match args with
+  | ["key", cfg, attrs, to, frm, _typ] => do
+    let as ← mapM? parseKeyAttr (splitList attrs)
+    let to ← parseKeyTo to
+    let frm ← parseKeyFrom frm
+    -- kind R: a message sent through the delivery-receipt helper
+    let p := if cfg.startsWith "R" then CorrKey.rcptSend 7 8 as else CorrKey.send {} 7 8 as
+    let ids := (p.2.filter (fun a => a.loc = .id)).map showKeyAttr
+    let out : CorrKey.Outcome := match CorrKey.wireId p.2 with
+      | some w => if CorrKey.matchEntry {} ⟨p.1, to⟩ ⟨w, true, true, frm⟩ then .reply else .lost
+      | none => .lost
+    -- after the call has returned (and deregistered) a duplicate of its reply is a response nobody
+    -- waits for: the handler gets it (`step … (.read st)` with `lookup = none`)
+    let (o, h) := match out with | .reply => ("reply", "0 dup=1") | .lost => ("lost", "1")
+    pure s!"ids={joinList ids} out={o} h={h} probe=live"
   | ["ibbw", cfg, ops] => do
     let s0 ← ibbInit cfg
     let os ← mapM? parseIbbOp (splitList ops)
